@@ -3114,7 +3114,9 @@ def column(
     Returns:
         The new Column instance.
     """
-    if not isinstance(col, Star):
+    if isinstance(col, Star):
+        col = maybe_copy(col, copy)
+    else:
         col = to_identifier(col, quoted=quoted, copy=copy)
 
     this: Column | Dot = Column(
